@@ -111,6 +111,19 @@ def run(ctx):
         argvs.append(["name from t order by %s" % e])
     argvs.append(["5 % 0"])
     argvs.append(["select 5 % 0, 0 / 0, 7 mod 0"])
+    # date literals with a real calendar day and an impossible time of day (and the converse), wherever a date is read:
+    # against a date column, as the argument of a date function, as a BETWEEN bound
+    bad_dates = ["'2023-12-11 25:00'", "'2023-12-11 10:61'", "'2023-12-11 10:30:75'", "'2023-12-1199'", "'2023-02-30'", "'2023-12-11 24:00:00'", "'2023-12-11 23:59:60'", "'2023-12-11 99:99:99'",
+                 "'2023-00-10'", "'2023-12-00'", "'0000-01-01'", "'9999-12-31 23:59:59'", "'2023-12-32 10'", "'2023:12:11 7:5:61'"]
+    for bd in bad_dates:
+        for col in ("modified", "accessed"):
+            for op in ("=", ">", "<=", "!=", "==="):
+                argvs.append(["name from t where %s %s %s" % (col, op, bd)])
+            argvs.append(["name from t where %s between %s and '2030-01-01'" % (col, bd)])
+            argvs.append(["name from t where %s between '2000-01-01' and %s" % (col, bd)])
+        for fn in ("year", "month", "day", "dow"):
+            argvs.append(["name, %s(%s) from t" % (fn, bd)])
+            argvs.append(["name from t where %s(%s) = 1" % (fn, bd)])
     for extra in (["-c"], ["-i"] * 0 + ["--config"], ["-c", "nonexistent.toml", "name", "from", "t"], [""], [" "], ["'"], ['"unterminated'], ["name", "into"], ["name", "limit"],
                   ["name from t order by 0"], ["name from t order by 2"], ["name from t order by desc"], ["name from t group by"], ["name from t where size =< 3"], ["/"], ["*", "/", "name"],
                   ["(" * 200 + "name"], ["lower(" * 150 + "name" + ")" * 150 + " from t"], ["asc " * 500 + "name from t"],
@@ -178,6 +191,6 @@ def run(ctx):
             ctx.notes.append("%s: witness no longer fails (status %s); update KNOWN_FINDINGS.json" % (kid, cls))
     ctx.coverage.update(
         evaluations=len(vectors) + len(argvs), distinct_nontrivial=len(st["distinct"]), traces_validated_against_impl=st["agreed"],
-        rule="argument vectors: valid queries from a typed grammar rendered as one argument and split at random whitespace with random letter case, token soups of 1-12 tokens over keywords/operators/brackets/quotes/numbers/globs/paths, single-token deletions, duplications, transpositions and character mutations of valid queries (%s); every scalar function with ill-typed, missing and out-of-range arguments in the select list, in WHERE and in ORDER BY; every column kind with uninterpretable literals; arithmetic (+ - * / %% mod div) over boundary operands - whole-number and fractional zero divisors written as literals or coming from an empty file, i64 extremes, text - as a column, in WHERE and as an ORDER BY key; option edge cases. (1) real lexer+parser (harness) vs the Gallina model: outcome class, error message and the whole AST; (2) the binary against a non-empty tree: status in {0,1,2} within 10 s, no panic text, a parse-time rejection prints no row, status 2 comes with a diagnostic. non-trivial = a vector rejected with status 2" % dict(kinds),
+        rule="argument vectors: valid queries from a typed grammar rendered as one argument and split at random whitespace with random letter case, token soups of 1-12 tokens over keywords/operators/brackets/quotes/numbers/globs/paths, single-token deletions, duplications, transpositions and character mutations of valid queries (%s); every scalar function with ill-typed, missing and out-of-range arguments in the select list, in WHERE and in ORDER BY; every column kind with uninterpretable literals; date literals with an impossible time of day or calendar day against date columns, as BETWEEN bounds and as arguments of YEAR / MONTH / DAY / DOW; arithmetic (+ - * / %% mod div) over boundary operands - whole-number and fractional zero divisors written as literals or coming from an empty file, i64 extremes, text - as a column, in WHERE and as an ORDER BY key; option edge cases. (1) real lexer+parser (harness) vs the Gallina model: outcome class, error message and the whole AST; (2) the binary against a non-empty tree: status in {0,1,2} within 10 s, no panic text, a parse-time rejection prints no row, status 2 comes with a diagnostic. non-trivial = a vector rejected with status 2" % dict(kinds),
         samples=st["samples"], distribution=dict(st["hist"]))
     return ctx.finish(trusted=["the machine stack is not modelled: inputs nested thousands of levels deep overflow the real stack (recorded finding) while the model's fuel is linear in the token count"])
